@@ -14,7 +14,7 @@ func configAliases(p *engine.Prog) *engine.Aliases {
 		"TGT", "call:store/topo.Store.Get(topo.ID(@CFG.TargetID))",
 		"REL", "call:store/topo.Store.Get(topo.ID(@CFG.Status.Mastership.Master))",
 		"CONN", "call:southbound/gnmi.ConnManager.Get(southbound/gnmi.ConnID(@REL.ID))",
-		"RELS", "call:store/topo.Store.List(&topo.Filters{RelationFilter:&topo.RelationFilter{RelationKind:topo.CONTROLS,Scope:topo.RelationFilterScope_RELATIONS_ONLY,SrcId:string(controller/utils.GetOnosConfigID())}})",
+		"RELS", "call:store/topo.Store.List(&topo.Filters{RelationFilter:&topo.RelationFilter{RelationKind:topo.CONTROLS,Scope:topo.RelationFilterScope_RELATIONS_ONLY,TargetId:string(@CFG.TargetID)}})",
 	)
 }
 
@@ -270,7 +270,7 @@ func electionRule(c *engine.Ctx, id string) {
 				o.Eval(1)
 				if !engine.Entails(engine.CondsBefore(ref.Path, ref.Idx), want, c.P.Domain) || s.Ev().RHS != c.Al.Expand("elem(@RELS)") {
 					o.Fail(&engine.Violation{Key: engine.SiteKey(ref.Path, ref.Idx, "fill candidate set"), Pos: c.P.Pos(s.Ev().Pos), Func: engine.FuncChain(ref.Path, ref.Idx),
-						Msg: "a relation enters the candidate set without the test that it targets this configuration's target, or the set is not filled from the CONTROLS/self-filtered topo list", Found: c.RenderConds(engine.CondsBefore(ref.Path, ref.Idx))})
+						Msg: "a relation enters the candidate set without the test that it targets this configuration's target, or the set is not filled from the topo list of the CONTROLS relations of the target (whichever instance they leave: a list restricted to the reconciling instance makes every instance depose the others' masters)", Found: c.RenderConds(engine.CondsBefore(ref.Path, ref.Idx))})
 					break
 				}
 			}
